@@ -2,7 +2,10 @@
    by the harness.
    case:  <id> o <label>* {c <lit>*}          order = pos_to_var (0-based labels), lit = signed
                                               1-based label as in DIMACS
-   out:   <id> OUT_OF_FUEL
+   out:   <id> OUT_OF_FUEL          (never: C06 theorems; would be a disagreement)
+        | a leading STALE_CACHE_HIT / GHOST_ERASURE_MISMATCH / NOCACHE_DIFFERS marker if the ghost
+          flag of compile_raw_g was cleared, the erasure failed, or the cache-less compiler built
+          a different tree (never observed; each would show up as a disagreement)
         | <id> R <unfold r> S <tt r> { C<v><b> <unfold cond r> <unfold cond !r> <tt cond r> <tt cond !r> }
    unfold = canonical unfolding of the standard store's diagram (T, F, (v lo hi), ! = complement);
    tt = truth table over the CNF's variables (assignment a: bit v = value of variable v), which is
@@ -48,6 +51,19 @@ let () =
       let nv = int_of_nat (cnf_num_vars (cnf_new raw)) in
       let buf = Buffer.create 1024 in
       Buffer.add_string buf id;
+      (* ghost-instrumented compiler (same result by the erasure theorem, re-checked here), the
+         "no stale cache hit" flag under which C06_topdown_free_partial gives freeness, and the
+         cache-less compiler of C06_main, whose tree must be the same *)
+      (match compile_raw_g ord true raw with
+       | Some (rg, fl) ->
+         (match compile_raw false ord false true raw with
+          | Some r when bdd_eqb r rg -> ()
+          | _ -> Buffer.add_string buf " GHOST_ERASURE_MISMATCH");
+         if not fl then Buffer.add_string buf " STALE_CACHE_HIT";
+         (match compile_raw false ord false false raw with
+          | Some r0 when bdd_eqb r0 rg -> ()
+          | _ -> Buffer.add_string buf " NOCACHE_DIFFERS")
+       | None -> ());
       (match compile_raw false ord false true raw with
        | None -> Buffer.add_string buf " OUT_OF_FUEL"
        | Some r ->
